@@ -510,3 +510,7 @@ package corebgp
 //@   ensures [severity_3_discard]  err != nil && gn == 0 && gtaw == 0 && gad != 0 ==> r != nil && (asPtr(gad, *AttrDiscardUpdateErr).Notification != nil ? r == asPtr(gad, *AttrDiscardUpdateErr).Notification : r.Code == 3 && r.Subcode == 0 && len(r.Data) == 0)
 //@   ensures [severity_5_generic]  err != nil && gn == 0 && gtaw == 0 && gad == 0 && gueT == 0 ==> r != nil && r.Code == 3 && r.Subcode == 0 && len(r.Data) == 0
 //@   ensures [notification_wins] isType(err, *Notification) && asType(err, *Notification) != nil ==> r == asType(err, *Notification)
+
+// the decoder is wired to the callbacks it was given, each in its own role (C16)
+//@ func NewUpdateDecoder (wrFn, paFn, nlriFn) returns (r)
+//@   ensures [wired_as_given] r != nil && fresh(r) && r.wrFn == wrFn && r.paFn == paFn && r.nlriFn == nlriFn
